@@ -34,7 +34,7 @@ spec = {
    "for generated flat structured programs the decompiled text must contain no jump, print every plain statement exactly once and satisfy C02."),
  "C14": ("proof", "Coq proofs about a model of SourceMap (de)serialisation and rewrite_offsets + differential correspondence",
    "SM/Proofs.v: deserialize(serialize m) = m, stable re-serialisation, entries moved exactly along the mapping, return-address rule; the model is compared with the real SourceMap on generated maps x injective mappings and on maps produced by the real compiler/decompiler."),
- "C15": (tv, "real CLI subprocesses; the printed JSON renumbered as documented is decided against the source by the verified checker; CLI round trip",
+ "C15": (tv, "real CLI subprocesses; the printed JSON renumbered as documented is decided against the source by the verified checker; CLI round trip; Coq theorem that the document's numbering keeps the flow graph (Script/Shift.v, tie K-cli)",
    "exit status, JSON structure, jump numbering (via the verified bisimulation checker), acceptance and meaning of the decompile CLI's output, documented JSON documents incl. mixed routine kinds."),
  "C16": ("exploration", "token-level re-spelling/layout metamorphic check on the real compiler; Coq theorems for the number spellings (Text/Num.v, tie K-num)",
    "k re-spellings per accepted program must compile to identical ops, tables and position marks (exploration). Proved: all spellings of an integer read as the same value (spellings_agree), leading zeros of fixed-point numbers (fixed_leading_zeros)."),
